@@ -58,7 +58,13 @@ def parse_module(text):
         if m:
             name = m.group(1)
             params = []
-            for n, part in enumerate(_split_args(m.group(2))):
+            # the parameter list up to the matching parenthesis (attributes such as dereferenceable(72) contain parentheses)
+            start = l.index("@" + name + "(") + len(name) + 2
+            depth, end = 1, start
+            while end < len(l) and depth:
+                depth += {"(": 1, ")": -1}.get(l[end], 0)
+                end += 1
+            for n, part in enumerate(_split_args(l[start:end - 1])):
                 toks = part.split()
                 pname = toks[-1] if toks and toks[-1].startswith("%") else "%%%d" % n
                 params.append((pname, toks[0] if toks else "i64"))
@@ -605,6 +611,12 @@ class Evaluator:
             st = env.get("__stack", {})
             if p in st:
                 env[dst] = st[p]
+                return None
+            if getattr(self, "symbolic_loads", False) and isinstance(p, Poly) and not any(sy.startswith("stack") for sy in p.symbols()):
+                # a field of an object passed by reference (never written by the evaluated function: stores to such addresses are rejected): an
+                # opaque value determined by its address, the same in every function evaluated on the same arguments
+                sl = self.symbolic_loads
+                env[dst] = sl(p) if callable(sl) else atom("mem", p)
                 return None
             raise Inconclusive("load from %r (not a stack temporary written on this path)" % p)
         if op == "store" and re.match(r"^store (?:volatile )?(double|float) ", rhs):
